@@ -243,11 +243,20 @@ def _main(P, tier, seed):
             reps.setdefault(_sig(f), f)
         shr = getattr(P, "shrink", None)
         if shr:
-            for sig, f in list(reps.items()):
+            # global budget: shrink at most 6 signatures (unknown ones first) and stop after the time limit, so that a
+            # change that breaks hundreds of signatures is still reported in minutes
+            t_shrink = time.time()
+            budget_s = float(os.environ.get("VERIF_SHRINK_S", "150" if tier == "quick" else "600"))
+            order = sorted(reps.items(), key=lambda kv: (kv[0] in known_sigs))
+            for n_sig, (sig, f) in enumerate(order):
+                if n_sig >= 6 or time.time() - t_shrink > budget_s:
+                    break
                 if f["case"] is None or not bd.get(f["build"]):
                     continue
                 cur = f
                 for _round in range(getattr(P, 'SHRINK_ROUNDS', 60)):
+                    if time.time() - t_shrink > budget_s:
+                        break
                     cand = list(shr(cur["case"]))[:160]
                     if not cand:
                         break
